@@ -116,18 +116,19 @@ def parse_message_name(name: str) -> tuple[str, str, str, int]:
     return (id_, topic, queue, int(priority))
 
 
-def unix_time() -> int:
-    return int(time.time())
+def unix_time() -> float:
+    return time.time()
 
 
-def wait_timestamp(params: ParametersT | None = None) -> int | None:
+def wait_timestamp(params: ParametersT | None = None) -> float | None:
     if params is None or params.delay is None:
         return None
 
+    # keep sub-second precision: truncated scores make messages available up to a second early
     if params.delay.next_execution_time is not None:
-        return int(params.delay.next_execution_time.timestamp())
+        return params.delay.next_execution_time.timestamp()
 
     if (computed := params.compute_next_execution_time) is not None:
-        return int(computed.timestamp())
+        return computed.timestamp()
 
     return None
